@@ -77,7 +77,7 @@ func (r *recCollector) get(name string) uint64 {
 
 type c20Totals struct {
 	appends, entries, bytesW, reads, bytesR, sGets, sSets, headTr, tailTr uint64
-	tailTruncs, delAlls, resets                                          uint64
+	tailTruncs, delAlls, resets                                           uint64
 }
 
 func encLen(l *raft.Log) uint64 {
@@ -463,7 +463,9 @@ func c20Verifier(c *evid.Ctx, declared map[string]bool, all *recCollector) {
 		if round == 3 {
 			close(block)
 		}
-		waitFor(func() bool { return rec.get("ranges_verified")+rec.get("dropped_reports") >= rec.get("checkpoints_written") })
+		waitFor(func() bool {
+			return rec.get("ranges_verified")+rec.get("dropped_reports") >= rec.get("checkpoints_written")
+		})
 		leader.Close()
 		follower.Close()
 		rec.mu.Lock()
